@@ -1,12 +1,19 @@
 /-
   The dispatcher `ClassifyEncryptedStreamAndMakeDecoder` (Model/Dispatch.lean):
-  its outcome is the outcome of the direct entry point named by the verdict, on
-  the same bytes from byte 0; signatures and non-saltpack input are refused
-  before any key is touched.  Behind Props/C16Dispatch.
+  * on the bytes of a cleanly ending source its outcome is the outcome of the
+    byte-level receiver of the mode the classifier reports — `Decrypt.openBytes` /
+    `Signcrypt.openBytes` of Model/Front.lean on the same bytes (binary), resp. on
+    the payload `Armor.open62` yields (armored); signatures and non-saltpack
+    input are refused before any key is touched;
+  * over the bufio machine (any initial reader state) it is the pure dispatcher
+    on the bytes AND THE FINAL CONDITION the reader delivers.
+  Behind Props/C16Dispatch.
 -/
 import Saltpack.Model.Dispatch
 import Saltpack.Proofs.Bufio
+import Saltpack.Proofs.BufioShort
 import Saltpack.Proofs.ClassifyLemmas
+import Saltpack.Proofs.CodecBytes
 
 namespace Saltpack.Proofs.DispatchP
 open Saltpack Saltpack.Classify Saltpack.Dispatch Saltpack.Stream Saltpack.Bufio BufioP
@@ -16,57 +23,119 @@ variable (P : Prims)
 theorem mt_distinct : mtEncryption ≠ mtSigncryption ∧ mtAttached ≠ mtEncryption ∧ mtAttached ≠ mtSigncryption ∧
     mtDetached ≠ mtEncryption ∧ mtDetached ≠ mtSigncryption := by decide
 
-theorem build_enc (kr : Keyring) (res : Signcrypt.Resolver) (arm : Bool) (b : Bytes) (v : Version) (all : Bytes) :
-    build P kr res (.ok (arm, b, mtEncryption, v)) all =
-      ⟨arm, mtEncryption, v, if arm then dearmor62DecryptStream P kr all else decryptStream P kr all⟩ := by
+theorem build_enc (kr : Keyring) (res : Signcrypt.Resolver) (arm : Bool) (b : Bytes) (v : Version) (all : Bytes) (e : End) :
+    build P kr res (.ok (arm, b, mtEncryption, v)) all e =
+      ⟨arm, mtEncryption, v, if arm then dearmor62DecryptStream P kr all e else decryptStream P kr all e⟩ := by
   simp [build]
 
-theorem build_sc (kr : Keyring) (res : Signcrypt.Resolver) (arm : Bool) (b : Bytes) (v : Version) (all : Bytes) :
-    build P kr res (.ok (arm, b, mtSigncryption, v)) all =
+theorem build_sc (kr : Keyring) (res : Signcrypt.Resolver) (arm : Bool) (b : Bytes) (v : Version) (all : Bytes) (e : End) :
+    build P kr res (.ok (arm, b, mtSigncryption, v)) all e =
       ⟨arm, mtSigncryption, v,
-        if arm then dearmor62SigncryptOpenStream P kr res all else signcryptOpenStream P kr res all⟩ := by
+        if arm then dearmor62SigncryptOpenStream P kr res all e else signcryptOpenStream P kr res all e⟩ := by
   have h : mtSigncryption ≠ mtEncryption := fun h => mt_distinct.1 h.symm
   simp [build, h]
 
 theorem build_other (kr : Keyring) (res : Signcrypt.Resolver) (arm : Bool) (b : Bytes) (t : Int) (v : Version) (all : Bytes)
-    (h1 : t ≠ mtEncryption) (h2 : t ≠ mtSigncryption) :
-    build P kr res (.ok (arm, b, t, v)) all = refuse .wrongMessageType := by
+    (e : End) (h1 : t ≠ mtEncryption) (h2 : t ≠ mtSigncryption) :
+    build P kr res (.ok (arm, b, t, v)) all e = refuse .wrongMessageType := by
   simp [build, h1, h2]
 
-/-- **the dispatcher's outcome is that of the direct entry point named by the
-    verdict, on the same bytes** — the four decoders -/
+/-! ### the decoders over a cleanly ending reader are the byte-level receivers of `Front` -/
+
+theorem withEnd_eof {β : Type} (ps : PStream β) : withEnd .eof ps = ps := by
+  unfold withEnd; rfl
+
+/-- with a reader error at the end only the tail changes, and only a clean one -/
+theorem withEnd_err {β : Type} (ps : PStream β) :
+    (withEnd .err ps).items = ps.items ∧
+    (withEnd .err ps).tail = (match ps.tail with | .eof => .err .decodeError | t => t) := by
+  unfold withEnd
+  cases h : ps.tail <;> simp [h]
+
+/-- `NewDecryptStream(CheckKnownMajorVersion, r, keyring)` over a reader that
+    delivers `msg` and a clean EOF IS `Decrypt.openBytes` -/
+theorem decryptStream_eof (kr : Keyring) (msg : Bytes) :
+    decryptStream P kr msg .eof = outEnc (Decrypt.openBytes P knownMajor kr msg) := by
+  unfold decryptStream
+  cases h : Front.readEnc msg with
+  | error w => unfold Decrypt.openBytes; rw [h]; rfl
+  | ok p =>
+    obtain ⟨hr, ps⟩ := p
+    rw [dec_openBytes_of_read h]
+    simp only [withEnd_eof]
+    rfl
+
+theorem signcryptOpenStream_eof (kr : Keyring) (res : Signcrypt.Resolver) (msg : Bytes) :
+    signcryptOpenStream P kr res msg .eof = outSc (Signcrypt.openBytes P kr res msg) := by
+  unfold signcryptOpenStream
+  cases h : Front.readSigncrypt msg with
+  | error w => unfold Signcrypt.openBytes; rw [h]; rfl
+  | ok p =>
+    obtain ⟨hr, ps⟩ := p
+    rw [sc_openBytes_of_read h]
+    simp only [withEnd_eof]
+    rfl
+
+/-- armor-open, then the byte-level receiver on the payload -/
+def armoredEnc (kr : Keyring) (text : Bytes) : Out :=
+  match Armor.open62 (some mtEncryption) text with
+  | .error e => .armorFail e
+  | .ok o => outEnc (Decrypt.openBytes P knownMajor kr o.payload)
+
+def armoredSc (kr : Keyring) (res : Signcrypt.Resolver) (text : Bytes) : Out :=
+  match Armor.open62 (some mtEncryption) text with
+  | .error e => .armorFail e
+  | .ok o => outSc (Signcrypt.openBytes P kr res o.payload)
+
+theorem dearmor62DecryptStream_eof (kr : Keyring) (text : Bytes) :
+    dearmor62DecryptStream P kr text .eof = armoredEnc P kr text := by
+  unfold dearmor62DecryptStream armoredEnc
+  cases Armor.open62 (some mtEncryption) text with
+  | error e => rfl
+  | ok o => exact decryptStream_eof P kr o.payload
+
+theorem dearmor62SigncryptOpenStream_eof (kr : Keyring) (res : Signcrypt.Resolver) (text : Bytes) :
+    dearmor62SigncryptOpenStream P kr res text .eof = armoredSc P kr res text := by
+  unfold dearmor62SigncryptOpenStream armoredSc
+  cases Armor.open62 (some mtEncryption) text with
+  | error e => rfl
+  | ok o => exact signcryptOpenStream_eof P kr res o.payload
+
+/-- **the dispatcher's outcome is that of the byte-level receiver of the mode the
+    classifier reports, on the same bytes** -/
 theorem dispatch_direct (kr : Keyring) (res : Signcrypt.Resolver) (all : Bytes) (arm : Bool) (b : Bytes) (t : Int) (v : Version)
     (h : classifyStream defaultBufSize all = .ok (arm, b, t, v)) :
-    (t = mtEncryption → arm = false → dispatch P kr res all = ⟨false, t, v, decryptStream P kr all⟩) ∧
-    (t = mtEncryption → arm = true → dispatch P kr res all = ⟨true, t, v, dearmor62DecryptStream P kr all⟩) ∧
-    (t = mtSigncryption → arm = false → dispatch P kr res all = ⟨false, t, v, signcryptOpenStream P kr res all⟩) ∧
-    (t = mtSigncryption → arm = true →
-      dispatch P kr res all = ⟨true, t, v, dearmor62SigncryptOpenStream P kr res all⟩) ∧
+    (t = mtEncryption → arm = false →
+      dispatch P kr res all = ⟨false, t, v, outEnc (Decrypt.openBytes P knownMajor kr all)⟩) ∧
+    (t = mtEncryption → arm = true → dispatch P kr res all = ⟨true, t, v, armoredEnc P kr all⟩) ∧
+    (t = mtSigncryption → arm = false →
+      dispatch P kr res all = ⟨false, t, v, outSc (Signcrypt.openBytes P kr res all)⟩) ∧
+    (t = mtSigncryption → arm = true → dispatch P kr res all = ⟨true, t, v, armoredSc P kr res all⟩) ∧
     (t = mtAttached ∨ t = mtDetached → dispatch P kr res all = refuse .wrongMessageType) := by
-  unfold dispatch
+  unfold dispatch dispatchEnd
   rw [h]
   refine ⟨?_, ?_, ?_, ?_, ?_⟩
-  · rintro rfl rfl; rw [build_enc]; rfl
-  · rintro rfl rfl; rw [build_enc]; rfl
-  · rintro rfl rfl; rw [build_sc]; rfl
-  · rintro rfl rfl; rw [build_sc]; rfl
+  · rintro rfl rfl; rw [build_enc, ← decryptStream_eof]; rfl
+  · rintro rfl rfl; rw [build_enc, ← dearmor62DecryptStream_eof]; rfl
+  · rintro rfl rfl; rw [build_sc, ← signcryptOpenStream_eof]; rfl
+  · rintro rfl rfl; rw [build_sc, ← dearmor62SigncryptOpenStream_eof]; rfl
   · rintro (rfl | rfl)
-    · exact build_other P kr res arm b _ v all mt_distinct.2.1 mt_distinct.2.2.1
-    · exact build_other P kr res arm b _ v all mt_distinct.2.2.2.1 mt_distinct.2.2.2.2
+    · exact build_other P kr res arm b _ v all _ mt_distinct.2.1 mt_distinct.2.2.1
+    · exact build_other P kr res arm b _ v all _ mt_distinct.2.2.2.1 mt_distinct.2.2.2.2
 
 /-- a refusal releases nothing, names nobody and calls no key -/
 theorem refuse_out (e : Err) : (refuse e).out = .fail e ∧ (refuse e).msgType = Gen.c_sp_MessageTypeUnknown := ⟨rfl, rfl⟩
 
-/-- **non-saltpack input and too-short input are refused** -/
-theorem dispatch_refuses (kr : Keyring) (res : Signcrypt.Resolver) (all : Bytes) :
-    (classifyStream defaultBufSize all = .notSaltpack → dispatch P kr res all = refuse .notASaltpackMessage) ∧
-    (classifyStream defaultBufSize all = .eof → dispatch P kr res all = refuse .notASaltpackMessage) ∧
-    (classifyStream defaultBufSize all = .short → dispatch P kr res all = refuse .shortSliceOrBuffer) := by
-  unfold dispatch
+/-- **non-saltpack input and too-short input are refused**, whatever the reader ends with -/
+theorem dispatch_refuses (kr : Keyring) (res : Signcrypt.Resolver) (size : Nat) (all : Bytes) (e : End) :
+    (classifyStream size all = .notSaltpack → dispatchEnd P kr res size all e = refuse .notASaltpackMessage) ∧
+    (classifyStream size all = .eof → dispatchEnd P kr res size all e = refuse .notASaltpackMessage) ∧
+    (classifyStream size all = .short → dispatchEnd P kr res size all e = refuse .shortSliceOrBuffer) := by
+  unfold dispatchEnd
   refine ⟨?_, ?_, ?_⟩ <;> intro h <;> rw [h] <;> rfl
 
 /-- **a genuine binary encryption / signcryption message** (header start as in
-    `C16_binary_correct`; 4096 ≥ 23) is handed to its direct entry point -/
+    `C16_binary_correct`; 4096 ≥ 23) is handed to its byte-level receiver -/
 theorem dispatch_genuine_binary (kr : Keyring) (res : Signcrypt.Resolver)
     (btag atag tail : Bytes) (hb : IsBinTag btag) (ha : IsArrTag atag)
     (ma mi t : Nat) (hma : ma < 128) (hmi : mi < 128) (ht : isMode (t : Int) = true)
@@ -74,8 +143,10 @@ theorem dispatch_genuine_binary (kr : Keyring) (res : Signcrypt.Resolver)
       Msgpack.encode (.int t) ++ tail).length) :
     let msg := btag ++ atag ++ Msgpack.encode (.str Gen.c_sp_FormatName) ++ Msgpack.encode (.arr [.int ma, .int mi]) ++
       Msgpack.encode (.int t) ++ tail
-    ((t : Int) = mtEncryption → dispatch P kr res msg = ⟨false, mtEncryption, ⟨ma, mi⟩, decryptStream P kr msg⟩) ∧
-    ((t : Int) = mtSigncryption → dispatch P kr res msg = ⟨false, mtSigncryption, ⟨ma, mi⟩, signcryptOpenStream P kr res msg⟩) ∧
+    ((t : Int) = mtEncryption →
+      dispatch P kr res msg = ⟨false, mtEncryption, ⟨ma, mi⟩, outEnc (Decrypt.openBytes P knownMajor kr msg)⟩) ∧
+    ((t : Int) = mtSigncryption →
+      dispatch P kr res msg = ⟨false, mtSigncryption, ⟨ma, mi⟩, outSc (Signcrypt.openBytes P kr res msg)⟩) ∧
     ((t : Int) = mtAttached ∨ (t : Int) = mtDetached → dispatch P kr res msg = refuse .wrongMessageType) := by
   intro msg
   have hc := stream_binary_correct btag atag tail hb ha ma mi t hma hmi ht defaultBufSize (by decide) hlen
@@ -84,45 +155,93 @@ theorem dispatch_genuine_binary (kr : Keyring) (res : Signcrypt.Resolver)
   · intro he; have := h1 he rfl; rw [he] at this; exact this
   · intro he; have := h3 he rfl; rw [he] at this; exact this
 
-/-- **the dispatcher over the bufio machine hands the decoder the whole stream
-    from byte 0**: on a scripted source that holds at least one buffer (4096
-    bytes) and ends cleanly, in any fragmentation and for every read size of the
-    decoder, the machine dispatcher is the pure dispatcher on the source's bytes -/
-theorem dispatchM_eq (kr : Keyring) (res : Signcrypt.Resolver) (src : Source) (cap fuel : Nat)
-    (hp : Progress src) (hcap : 0 < cap) (hfull : defaultBufSize ≤ (total src).1.length)
-    (hfuel : (total src).1.length + 1 ≤ fuel) :
-    dispatchM P kr res cap fuel src = dispatch P kr res (total src).1 := by
-  have hmax : max defaultBufSize minReadBufferSize = defaultBufSize := by decide
-  obtain ⟨hr, hd, _⟩ := classify_then_drain src defaultBufSize cap fuel hp hcap (by rw [hmax]; exact hfull) hfuel
-  rw [hmax] at hr
-  unfold dispatchM dispatch newReader
-  generalize hcs : classifyStreamM (newReaderSize src defaultBufSize) = r at hr hd
+/-! ### the dispatcher over the bufio machine -/
+
+/-- **the decoder is built over the same reader and reads it to its end**: for
+    every state of the bufio machine (`Inv`: no `(0, nil)` reads ahead) that can
+    still deliver a full buffer, or whose stream ends in a sticky EOF, the machine
+    dispatcher is the pure dispatcher on what the reader will deliver — its bytes
+    from byte 0 AND its final condition — for every read size of the decoder -/
+theorem dispatchM_state (kr : Keyring) (res : Signcrypt.Resolver) (cap fuel : Nat) (s : BState) (hi : Inv s)
+    (hsz : 0 < s.size) (hcap : 0 < cap) (hfuel : (view s).1.length + 1 ≤ fuel)
+    (hcase : s.size ≤ (view s).1.length ∨ ((view s).2 = .src .eof ∧ StickyInv s ∧ (view s).1.length < s.size)) :
+    dispatchM P kr res cap fuel s = dispatchEnd P kr res s.size (view s).1 (End.of (view s).2) := by
+  have key : Inv (classifyStreamM s).2 ∧ view (classifyStreamM s).2 = view s ∧
+      (classifyStreamM s).1 = .v (classifyStream s.size (view s).1) := by
+    rcases hcase with hfull | ⟨heof, hst, hshort⟩
+    · exact classify_full s hi hsz hfull
+    · obtain ⟨a, _, c, d⟩ := classify_short_eof s hi hst (view s).1 (by rw [← heof]) hshort
+      exact ⟨a, c, d⟩
+  obtain ⟨hi1, hv1, hr⟩ := key
+  obtain ⟨hd1, hd2⟩ := drain_view cap hcap fuel (classifyStreamM s).2 [] hi1 (by rw [hv1]; exact hfuel)
+  rw [hv1] at hd1 hd2
+  unfold dispatchM dispatchEnd
+  generalize hcs : classifyStreamM s = r at hr hd1 hd2
   obtain ⟨v, s1⟩ := r
-  simp only at hr hd ⊢
+  simp only at hr hd1 hd2 ⊢
   subst hr
   simp only
-  generalize hdr : drain cap fuel s1 [] = dr at hd
+  generalize hdr : drain cap fuel s1 [] = dr at hd1 hd2
   obtain ⟨a, e, s2⟩ := dr
-  simp only at hd ⊢
-  rw [hd]
+  simp only [List.nil_append] at hd1 hd2 ⊢
+  subst hd1 hd2
+  rfl
 
 /-- a reader error within the classified range: the dispatcher answers "not a
     saltpack message" and builds no decoder (after fix 565786f: the error is not
     swallowed by a second peek) -/
-theorem dispatchM_error (kr : Keyring) (res : Signcrypt.Resolver) (src : Source) (cap fuel : Nat)
-    (hp : Progress src) (x : Err) (hx : (total src).2 = .err x) (hshort : (total src).1.length < defaultBufSize) :
-    dispatchM P kr res cap fuel src = refuse .notASaltpackMessage := by
-  have hi := inv_new src defaultBufSize hp
-  have hv : view (newReaderSize src defaultBufSize) = ((total src).1, .src (.err x)) := by
-    rw [view_new, hx]
-  have := classify_reports_error (newReaderSize src defaultBufSize) hi (total src).1 x hv
-    (by show _ < max defaultBufSize minReadBufferSize; have : max defaultBufSize minReadBufferSize = defaultBufSize := by decide
-        rw [this]; exact hshort)
-  unfold dispatchM newReader
-  generalize hcs : classifyStreamM (newReaderSize src defaultBufSize) = r at this
+theorem dispatchM_state_error (kr : Keyring) (res : Signcrypt.Resolver) (cap fuel : Nat) (s : BState) (hi : Inv s)
+    (all : Bytes) (x : Err) (hv : view s = (all, .src (.err x))) (hshort : all.length < s.size) :
+    dispatchM P kr res cap fuel s = refuse .notASaltpackMessage := by
+  have := classify_reports_error s hi all x hv hshort
+  unfold dispatchM
+  generalize hcs : classifyStreamM s = r at this
   obtain ⟨v, s1⟩ := r
   simp only at this ⊢
   subst this
   rfl
+
+/-- **`bufio.NewReader(source)`**: the dispatcher over a scripted source — every
+    fragmentation, data-with-EOF, data-with-error — is the pure dispatcher on the
+    source's bytes and final condition, whenever the source holds at least one
+    buffer (4096 bytes; ANY final condition, a read error included) or ends in a
+    sticky EOF (any length) -/
+theorem dispatchSrc_eq (kr : Keyring) (res : Signcrypt.Resolver) (src : Source) (cap fuel : Nat)
+    (hp : Progress src) (hcap : 0 < cap) (hfuel : (total src).1.length + 1 ≤ fuel)
+    (hcase : defaultBufSize ≤ (total src).1.length ∨ ((total src).2 = .eof ∧ EofSticky src)) :
+    dispatchSrc P kr res cap fuel src =
+      dispatchEnd P kr res defaultBufSize (total src).1 (End.of (.src (total src).2)) := by
+  have hi := inv_new src defaultBufSize hp
+  have hv : view (newReader src) = ((total src).1, .src (total src).2) := view_new src defaultBufSize
+  have hs : (newReader src).size = defaultBufSize := rfl
+  have := dispatchM_state P kr res cap fuel (newReader src) hi (by rw [hs]; decide) hcap (by rw [hv]; exact hfuel)
+    (by
+      rw [hv, hs]
+      rcases hcase with h | ⟨h1, h2⟩
+      · exact Or.inl h
+      · by_cases hl : defaultBufSize ≤ (total src).1.length
+        · exact Or.inl hl
+        · exact Or.inr ⟨by rw [h1], sticky_new src defaultBufSize h2, by simp only; omega⟩)
+  rw [hv, hs] at this
+  exact this
+
+/-- the lift of `classify_then_drain_eof` to the dispatcher: every EOF-ended,
+    EOF-sticky script of ANY length -/
+theorem dispatchSrc_eof (kr : Keyring) (res : Signcrypt.Resolver) (src : Source) (cap fuel : Nat)
+    (hp : Progress src) (hst : EofSticky src) (heof : (total src).2 = .eof) (hcap : 0 < cap)
+    (hfuel : (total src).1.length + 1 ≤ fuel) :
+    dispatchSrc P kr res cap fuel src = dispatch P kr res (total src).1 := by
+  rw [dispatchSrc_eq P kr res src cap fuel hp hcap hfuel (Or.inr ⟨heof, hst⟩), heof]
+  rfl
+
+/-- a source that ends in an error before a full buffer: refused -/
+theorem dispatchSrc_error (kr : Keyring) (res : Signcrypt.Resolver) (src : Source) (cap fuel : Nat)
+    (hp : Progress src) (x : Err) (hx : (total src).2 = .err x) (hshort : (total src).1.length < defaultBufSize) :
+    dispatchSrc P kr res cap fuel src = refuse .notASaltpackMessage := by
+  have hi := inv_new src defaultBufSize hp
+  have hv : view (newReader src) = ((total src).1, .src (.err x)) := by
+    show view (newReaderSize src defaultBufSize) = _
+    rw [view_new, hx]
+  exact dispatchM_state_error P kr res cap fuel (newReader src) hi (total src).1 x hv hshort
 
 end Saltpack.Proofs.DispatchP
